@@ -59,7 +59,9 @@ def run_impl(case, outcome):
 
 
 STRINGS = ["plain", "a<b", "a>b", "a&b", 'say "hi"', "it's", "é", "\u4e2d\u6587", "\U0001d11e", "two  spaces", "line1\nline2", "tab\there",
-           "]]>", "&amp;", "&#65;", "<tag/>", "a=b", "100%", "x\u00a0y", "\u2028sep", "C:\\path", "ümlaut \"q\" <&>'"]
+           "]]>", "&amp;", "&#65;", "<tag/>", "a=b", "100%", "x\u00a0y", "\u2028sep", "C:\\path", "ümlaut \"q\" <&>'",
+           # strings that are not in Unicode normal form (NFC would change them) and compatibility characters (NFKC would)
+           "10 \u212b", "e\u0301t\u00e9", "5 k\u2126", "\u1100\u1161\u11a8", "\uf900", "\ufb01n", "x\u00b2", "\u2460", "A\u030a\u0323"]
 ATTR_ONLY = ["trailing ", " leading", "\n", "\t"]          # attribute values keep surrounding whitespace
 
 
